@@ -58,10 +58,22 @@ pub fn make_tree() -> Tree {
     w(&base.join("a.."), "a-dotdot");
     w(&base.join("..."), "three dots");
     w(&base.join("sub.gz"), "gz named like the directory");
+    // names that themselves end in .gz and have a .gz sibling of their own (a blanket `gzip -k` over the tree)
+    w(&base.join("c.gz"), "plain file whose name ends in .gz");
+    w(&base.join("c.gz.gz"), "its gz sibling");
+    w(&base.join("d.tar.gz"), "tarball");
+    w(&base.join("d.tar.gz.gz"), "tarball sibling");
+    // symbolic links: to a file inside, to a file outside, to the parent directory (openat follows them;
+    // the property speaks of the path's segments, and the lookup table below is obtained the same way)
+    let _ = std::os::unix::fs::symlink("a", base.join("ln-a"));
+    let _ = std::os::unix::fs::symlink("../secret", base.join("ln-out"));
+    let _ = std::os::unix::fs::symlink("..", base.join("ln-up"));
     std::fs::create_dir(base.join("sub")).unwrap();
     w(&base.join("sub").join("a"), "sub a");
     std::fs::create_dir(base.join("sub").join("a.gz")).unwrap();
     w(&base.join("sub").join("b.gz"), "only gz");
+    w(&base.join("sub").join("x.gz"), "sub x.gz");
+    w(&base.join("sub").join("x.gz.gz"), "sub x.gz.gz");
     w(&base.join("sub").join("secret"), "sub secret");
     std::fs::create_dir(base.join("sub").join("sub")).unwrap();
     w(&base.join("sub").join("sub").join("a"), "deep a");
@@ -184,7 +196,7 @@ pub fn gen_c19(rng: &mut Rng, thorough: bool, emit: &mut dyn FnMut(DirCase)) {
     }
     // other names: .gz given explicitly, dots, long names
     let longs: Vec<String> = [252usize, 251, 250, 253, 255, 256].iter().map(|n| long_name(*n)).collect();
-    let mut named: Vec<String> = ["a.gz", "sub/a.gz", "sub/b", "sub/b.gz", "sub.gz", "sub", "sub/", "sub/sub/a", "sub/./a", "sub//a", "./a", "a/.", "a/", "..gz", "...gz", ".gz", "", "a.gz.gz", "nonexistent", "sub/nonexistent", "a/b"].iter().map(|s| s.to_string()).collect();
+    let mut named: Vec<String> = ["a.gz", "sub/a.gz", "sub/b", "sub/b.gz", "sub.gz", "sub", "sub/", "sub/sub/a", "sub/./a", "sub//a", "./a", "a/.", "a/", "..gz", "...gz", ".gz", "", "a.gz.gz", "c.gz", "c.gz.gz", "c", "d.tar.gz", "d.tar", "sub/x.gz", "sub/x", "sub/x.gz.gz", "ln-a", "ln-out", "ln-up/secret", "ln-up", "ln-a.gz", "nonexistent", "sub/nonexistent", "a/b"].iter().map(|s| s.to_string()).collect();
     named.extend(longs);
     for p in named.iter().map(|s| s.as_str()) {
         for auto in [true, false] {
